@@ -189,8 +189,8 @@ func c09ParseInitial(d []byte) (payload []byte, total int, errs string) {
 }
 
 // c09CheckCoalesced: the packets the packer says it coalesced behind the Initial packet (which ends at
-// offset end) must follow it back to back, each as long as the packer recorded; whatever remains of the
-// datagram must be zero padding.
+// offset end) must follow it back to back, each as long as the packer recorded; a 1-RTT packet must end the
+// datagram, otherwise whatever remains of it must be zero padding.
 func c09CheckCoalesced(p *coalescedPacket, end int) string {
 	d := p.buffer.Data
 	at := end
@@ -214,6 +214,14 @@ func c09CheckCoalesced(p *coalescedPacket, end int) string {
 	}
 	if at > len(d) {
 		return fmt.Sprintf("recorded packet lengths add up to %d, datagram has %d bytes", at, len(d))
+	}
+	if len(d) < 1200 {
+		return fmt.Sprintf("the datagram carries a client Initial packet and is only %d bytes long (RFC 9000 14.1: at least 1200)", len(d))
+	}
+	if p.shortHdrPacket != nil && at != len(d) {
+		// a short header packet has no length field: it extends to the end of the datagram, and anything
+		// behind it becomes part of its ciphertext (the receiver cannot authenticate it)
+		return fmt.Sprintf("%d bytes follow the 1-RTT packet, which ends at %d: a short header packet must be the end of the datagram", len(d)-at, at)
 	}
 	for i := at; i < len(d); i++ {
 		if d[i] != 0 {
